@@ -17,6 +17,7 @@ from __future__ import annotations
 
 import re
 
+import numpy as np
 import sympy as sp
 
 from .common import *  # noqa
@@ -323,12 +324,14 @@ def check_text_reader(run, pkg, fname, ndim, style, wtoks, light=False):
     a = [sp.Symbol(f"a{c}", real=True) for c in range(12)]
     sts = [ev for ev in rr.it.events if ev.kind == "store" and Lid in ev.loops]
     tstore = pstore = None
+    pstores = []
     for ev in sts:
         base = strip_alloc(ev.data["target"][1])
         if base[0] == "call" and base[1] == "numpy.zeros":
             shp = base[2][0]
             if shp[0] == "tuple":
                 pstore = ev
+                pstores.append(ev)
             else:
                 tstore = ev
     for nm, ev in (("type", tstore), ("values", pstore)):
@@ -351,7 +354,10 @@ def check_text_reader(run, pkg, fname, ndim, style, wtoks, light=False):
         return
     val = strip_alloc(ae.deep(pstore.data["value"]))
     if fname == "read_lammps_vector":
-        check_vector_values(run, rr, fq, cfg, val, pstore, kws)
+        # every store into the value array is an alternative (stores under different tests): each one is decided
+        for k_, ps in enumerate(pstores):
+            v_ = strip_alloc(ae.deep(ps.data["value"]))
+            check_vector_values(run, rr, fq, cfg + (f"#{k_}" if len(pstores) > 1 else ""), v_, ps, kws, ae)
         return
     # centre-type: [float(j) for j in item[2:ndim+2]] (* boxlength for xs)
     scale = None
@@ -370,7 +376,36 @@ def check_text_reader(run, pkg, fname, ndim, style, wtoks, light=False):
     check_selection(run, rr, fq, cfg, kws, pstore, tstore, style, ndim, stored_scale)
 
 
-def check_vector_values(run, rr, fq, cfg, val, pstore, kws):
+def vector_values_by_evaluation(rr, val, pstore, ae):
+    """The stored value (and the tests it sits under) evaluated for concrete requests: tokens 10, 20, ... on the atom line and
+    column-id lists in ascending, descending and mixed order.  Returns (True | False | None, witness)."""
+    from ..concrete import ev as cev
+    splits = {x for x in walk(val) if x[0] == "call" and x[1] == ".split"}
+    # only tests on the request decide which alternative runs; file-state tests (end of file, header checks) hold for a well-formed frame
+    guards = [(ae.deep(c), pol) for c, pol in pstore.guards]
+    guards = [(c, pol) for c, pol in guards if any(x == ("sym", "columnsids") for x in walk(c))]
+    for c, _ in guards:
+        splits |= {x for x in walk(c) if x[0] == "call" and x[1] == ".split"}
+    tokens = [str(10 * (k + 1)) for k in range(12)]
+    decided = False
+    for ids in ([5, 6], [3, 4, 5], [7, 5], [8, 7, 6], [6, 8, 7], [4], [3, 6]):
+        env = {("sym", "columnsids"): list(ids)}
+        for sp_ in splits:
+            env[sp_] = list(tokens)
+        try:
+            if not all(bool(cev(c, env)) == pol for c, pol in guards):
+                continue
+            got = [float(x) for x in np.asarray(cev(val, env)).ravel().tolist()]
+        except Exception:  # noqa
+            return None, None
+        decided = True
+        want = [float(tokens[c - 1]) for c in ids]
+        if got != want:
+            return False, f"columnsids={ids} on a line with tokens 10 20 30 ...: stored {got}, requested columns hold {want}"
+    return (True if decided else None), None
+
+
+def check_vector_values(run, rr, fq, cfg, val, pstore, kws, ae=None):
     loc = loc_of(rr.it, pstore)
     ok = None
     detail = show(val)[:100]
@@ -392,8 +427,15 @@ def check_vector_values(run, rr, fq, cfg, val, pstore, kws):
             s_ok = False
             detail += " ; column ids used as token indices without -1"
         ok = tri(True if e_ok else None, s_ok)
+    wit_ev = None
+    if ok is None and ae is not None:
+        okev, wit_ev = vector_values_by_evaluation(rr, val, pstore, ae)
+        if okev is False:
+            ok = False
+        elif okev is True:
+            detail += " ; agrees with the request on 7 concrete column-id lists (not a proof)"
     run.ob("R-IDX", fq, f"{cfg}:columns", ok, "value k of an atom is token (column id k) - 1 of its line, in the order of the requested ids", detail,
-           witness=None if ok else "columnsids=[5, 6] on `id type x y vx vy` must give (vx, vy)", loc=loc, sound=True)
+           witness=None if ok else (wit_ev or "columnsids=[5, 6] on `id type x y vx vy` must give (vx, vy)"), loc=loc, sound=True)
     P = strip_alloc(kws["positions"])
     okp = P == strip_alloc(pstore.data["target"][1])
     run.ob("R-IDX", fq, f"{cfg}:positions-field", True if okp else None, "the id-indexed column array is returned in the positions field", show(P)[:60], witness=None if okp else "another array returned", loc=loc)
